@@ -162,7 +162,8 @@ def r2_service_handle(ctx):
     gsd = bt.calls_to(r"ws::graceful_shutdown$")
     dd = [c for c in bt.calls_to(r"^std::mem::drop$") if op_place(c.args[0]) and bt.locals[op_place(c.args[0])["l"]]["ty"].startswith("std::sync::Arc<S")]
     R.check(len(dd) == 1 and gsd and bt.dominates(dd[0].bb, gsd[0].bb), "C10.R2", "background_task:drop-service-before-wait", "the session drops its own service handle before waiting for pending calls", "background_task does not drop its service handle before graceful_shutdown: the wait for pending calls can never finish (or stops early)", where(gsd[0]) if gsd else None)
-    tasks = [b for b in F.find(r"^jsonrpsee_server::transport::ws::background_task::\{closure#0\}::\{closure#\d+\}$") if b.calls_to(r"server::handle_rpc_call$")]
+    from .c01 import WSTASK
+    tasks = [b for b in F.find(WSTASK) if b.calls_to(r"server::handle_rpc_call$")]
     if len(tasks) != 1:
         raise AnchorLost("per-message task of background_task")
     t = tasks[0]
